@@ -291,3 +291,26 @@ func VerifH_C14_JoinedDial_S3() {
 	verifrt.Reach("both-returned")
 	verifrt.Assert(e1 != nil && e2 != nil, "both exchanges return an error once their own context ends")
 }
+
+// VerifH_C14_StaleWriteFirst: a pooled pipelined TCP connection is reset by the server while idle, and the next
+// query's Write notices it before the connection's read loop does (so the connection does not look closed yet).
+// A healthy server is reachable: the exchange must still be retried and succeed, on a fresh connection.
+func VerifH_C14_StaleWriteFirst() {
+	verifrt.Unwind(80)
+	verifrt.SchedBound(1)
+	var conns []*vNetConn
+	t := NewPipelineTransport(PipelineOpts{IsTCP: true, DialContext: func(ctx context.Context) (net.Conn, error) {
+		c := newVNetConn()
+		conns = append(conns, c)
+		go vServe(c)
+		return c, nil
+	}})
+	r, err := t.ExchangeContext(context.Background(), vQuery12(1, 4))
+	verifrt.Assert(err == nil && r.Header.ID == 1 && r.Header.RCode == 4 && len(conns) == 1, "warm-up exchange on the first connection")
+	conns[0].rst = true // RST while the connection sits idle in the pool
+	r, err = t.ExchangeContext(context.Background(), vQuery12(2, 6))
+	verifrt.Reach("returned")
+	verifrt.Assert(err == nil && r != nil, "a stale pooled connection is survived: the query is retried while a healthy server is reachable")
+	verifrt.Assert(r.Header.ID == 2 && r.Header.RCode == 6, "and answered with the reply to this query")
+	verifrt.Assert(len(conns) == 2, "on a fresh connection")
+}
